@@ -11,6 +11,7 @@ Compared: reply bytes / silence / exception class, the state afterwards, whether
 import itertools
 import random
 
+import secsm
 from common import hx, setup_repo_import
 
 ID = "C13"
@@ -19,14 +20,20 @@ PROOF = "Gallia.Proofs.C13"
 DRIVER = "c13"
 ORACLE = True
 ASSUMPTIONS = [
-    "request parsing is an input: whether UDSRequest.parse_dynamic returns a RawRequest for the bytes is taken from "
-    "the real parser (the request codec is property C01); for parsed requests class and suppress bit follow from "
-    "service id and sub-function byte (checked on every compared request through the outputs)",
-    "respond_after_default is an oracle except for SecurityAccess: its recorded return value is handed to the model",
+    "single-request part (sections 1-5 of the tie): request parsing is an input - whether UDSRequest.parse_dynamic returns a "
+    "RawRequest for the bytes is taken from the real parser - and the recorded return value of respond_after_default is "
+    "handed to the model; in the history part (section 6, harness/secsm.py) neither is an input: the model is the concrete "
+    "server (C01's parser model computes the raw bit, C14's typed handlers answer, only the random draws of the handler "
+    "call are recorded)",
+    "the random decisions of a handler call (random_bool, randint, expovariate, random_payload) are a per-request oracle; the "
+    "theorems about the concrete server hold for every oracle",
     "empty requests are outside the quantifier (request.service_id raises IndexError; robustness is property C14); "
     "the model reports them as `crash index` and the harness checks exactly that",
     "active session < 256 (to_bytes(session, 1) in the session-read rule)",
+    "time: the clock is read exactly twice per request (start, end) and is a multiple of 0.25 s in the tie (exact in binary "
+    "floating point); the model counts ticks of 0.25 s in natural numbers (a clock running backwards counts as no gap)",
 ]
+
 
 SWITCHES = [
     "default_response_if_service_not_supported",
@@ -585,7 +592,7 @@ def _run(ctx, batch):
                 reqs.append(bytes([sid, sf]))
                 reqs.append(bytes([sid, sf | 0x80]))
                 reqs.append(bytes([sid, sf, 0x00]))
-        reqs += [bytes.fromhex(x) for x in ("22f186", "22f18600", "22f186f190", "22f190", "3e00", "3e80", "3e0000",
+        reqs += [bytes.fromhex(x) for x in ("22f186", "22f18600", "22f186f190", "22f190f186", "22f190", "3e00", "3e80", "3e0000",
                                              "1001", "1081", "100100", "110100", "31010000", "3181ffff", "14ffffff",
                                              "190201", "19820f", "2ef19001")]
         reqs += structured_requests(real, rng, pre, 40)
@@ -624,9 +631,15 @@ def _run(ctx, batch):
         r0 = reals[0]
         ctx.sample({"model": r0.spec[:300], "example": "sreq 1 none none 111111111 0 0 1001 none"})
 
+    # 6. the concrete server (no handler record, no raw bit): the session / security state machine over whole histories,
+    #    exhaustively over a small alphabet of request kinds, with both clock reads of handle_request (harness/secsm.py)
+    secsm.explore(ctx, "c13")
+
 
 def replay(ctx, case):
     c = case.get("case", case)
+    if c.get("kind") == "history":
+        return secsm.replay(ctx, c, "c13")
     env = make_env(0)
     S = env["UDSIsoServices"]
     params = dict(c["params"])
@@ -654,19 +667,32 @@ def replay(ctx, case):
 
 MANIFEST = {
     "level_text": ("Lean 4 theorems over an executable model of UDSServer.respond (rule chain in code order with the nine "
-                   "behaviour switches, update_state, suppression, inactivity reset, RandomUDSServer seed/key sequencing) "
-                   "against a separately written ISO 14229-1 priority-list specification: with all switches on the model "
-                   "equals the specification for every ECU model, state, handler and request; priority of each rule over "
-                   "the later ones; positive replies omitted iff suppress bit, negative never; session / security changes "
-                   "only on the positive replies ISO names; switching one behaviour off removes exactly that rule; chain "
-                   "order, switch list, NRC values and sub-function-service list regenerated from the AST / live enums on "
-                   "every run. Tied to the code by a correspondence run of the real RandomUDSServer behind "
+                   "behaviour switches, update_state, suppression, inactivity reset) against a separately written ISO 14229-1 "
+                   "priority-list specification: with all switches on the model equals the specification for every ECU "
+                   "model, state, handler and request - in particular for the CONCRETE server (rule chain + the typed "
+                   "handlers of RandomUDSServer over C01's parser model + update_state, respond_default_iso_concrete: no "
+                   "handler oracle, no raw bit as input); priority of each rule over the later ones; positive replies "
+                   "omitted iff suppress bit, negative never; each service-stage rule (session change / session read / "
+                   "tester present / none / suppress) with its exact guard (session read: only when 0xF186 is the FIRST "
+                   "identifier and the service is offered); the inactivity rule of handle_request with both clock reads "
+                   "(idle_reset_exact: strictly more than 10 s after the END of the previous request resets session, level "
+                   "and pending seed); over WHOLE histories, for every model, oracle and switch subset: the state is decided "
+                   "by the last event with an effect (session_state_machine, security_state_machine, "
+                   "security_cleared_exact), a positive SecurityAccess answer is exactly a seed request or a key request "
+                   "for the level after the pending seed carrying that seed (sa_reply_exact); switching one behaviour off "
+                   "removes exactly that rule; chain order, switch list, NRC values, sub-function-service list and the "
+                   "statements of the service-stage rules, update_state, reset and handle_request regenerated from the AST "
+                   "/ live enums on every run. Tied to the code by a correspondence run of the real RandomUDSServer behind "
                    "UDSServerTransport.handle_request: all one- and two-byte requests exhaustively on several models and "
-                   "reached states, sampled longer requests, state-aware histories (session changes, seed/key exchanges, "
-                   "resets, idle gaps), all 512 switch subsets in the thorough tier (pairwise in quick)."),
+                   "reached states, sampled longer requests, state-aware histories, all 512 switch subsets in the thorough "
+                   "tier (pairwise in quick), and all request sequences over 10 / 12 request kinds up to length 5 / 4 (6 / 5 "
+                   "thorough) compared state by state and reply by reply with the concrete model, idle gaps of 9..11.25 s x "
+                   "handling durations, the state machine under switch subsets."),
     "level_note": ("Trusted: Lean kernel (propext, Quot.sound, Classical.choice), the translator gen/c13_chain.py, the "
-                   "harness. Request parsing enters as an input bit (RawRequest or not) taken from the real parser; "
-                   "respond_after_default is an oracle except for SecurityAccess. Empty requests are out of scope (C14)."),
-    "technique": "Lean 4 proof (refinement of the code-shaped chain to a priority-list specification, case analysis, list induction) + regenerated tables + differential correspondence against the real virtual ECU",
+                   "harness incl. its RNG recorder and scripted clock. In the single-request part request parsing enters as "
+                   "an input bit and respond_after_default as a recorded value; in the history part only the random draws "
+                   "are recorded (oracle). Request parsing there is C01's parser model (tied to gallia by C01 and re-checked "
+                   "through the outputs). Empty requests are out of scope (C14)."),
+    "technique": "Lean 4 proof (refinement of the code-shaped chain to a priority-list specification, case analysis, list induction, last-effective-event characterisation of folds over histories) + regenerated tables + differential correspondence against the real virtual ECU (exhaustive short request histories with snapshot/restore)",
     "design_ref": "DESIGN.md section 7, C13",
 }
